@@ -267,7 +267,7 @@ fn build(tier: Tier) -> Vec<Case> {
                         });
                     }
                     // distinct timeouts: only the read timeout may bound a blocked receive
-                    let variants: &[u8] = if tier.is_thorough() { &[1, 2] } else { &[1] };
+                    let variants: &[u8] = if tier.is_thorough() || e.tcp { &[1, 2] } else { &[1] };
                     for variant in variants {
                         for k in [0, e.replies / 2] {
                             if *r > 0 && !tier.is_thorough() {
